@@ -122,7 +122,7 @@ func vfExplore(r *vfRun, cfg *vfExploreCfg) {
 	canon0, obs0, en0, p0 := vfRunHistory(r, cfg, nil, true, false)
 	r.res.Executions++
 	if p0 != "" {
-		r.violation("panic:init:"+cfg.Name, "panic building initial state: "+vfFirstLine(p0), vfCase{Scenario: cfg.Scenario, Name: cfg.Name})
+		r.violation("panic:"+vfPanicFingerprint(p0), "panic building initial state: "+vfFirstLine(p0), vfCase{Scenario: cfg.Scenario, Name: cfg.Name})
 		return
 	}
 	// determinism self-test on the initial state
